@@ -1,3 +1,195 @@
+(* C02 — property theorems.  Statements closed by [exact] only.
+
+   [model_obs fixed conns = Some (Ts, n)]: running the model of the repaired
+   proxy (fixes/C02-1, fixes/C02-2) on the connection scripts [conns] yields
+   one observable trace per connection ([Ts]) and [n] contexts still linked
+   at the end.  [all_conns P 0 0 conns Ts] says P of every connection
+   (k = its session number, b = position of its first request, its script,
+   its trace); [ex r T] is the sub-trace of the exchange of request r. *)
 From Coq Require Import List Bool Arith.
-From Martian.C02 Require Import Model Proofs.
+From Martian.C02 Require Import Model Proofs_Refine Proofs_Clauses Proofs_Oracle Proofs_Main.
 Import ListNotations.
+
+(* The model is total (never out of fuel), ends with an empty
+   request->context table and is observably the per-exchange specification. *)
+Theorem C02_model_refines_spec : forall conns,
+  model_obs fixed conns = Some (spec_obs conns, 0).
+Proof. exact model_refines_spec. Qed.
+Print Assumptions C02_model_refines_spec.
+
+(* reqmod runs exactly once per request read, before anything else of that
+   exchange (hence before any upstream contact), and what goes upstream is
+   the same request object carrying the modifier's effect exactly once. *)
+Theorem C02_reqmod_once_before_upstream : forall conns Ts n,
+  model_obs fixed conns = Some (Ts, n) ->
+  all_conns (fun k b reqs T =>
+    forall i q, nth_error reqs i = Some q ->
+      ex (b + i) T = [] \/
+      exists r c s L tl, ex (b + i) T = ReqMod r c s L :: tl /\
+        (forall e, In e tl -> is_reqmod e = false) /\
+        (forall r' sm w m, In (Upstream r' sm w m) tl -> sm = true /\ m = 1))
+    0 0 conns Ts.
+Proof. exact m_reqmod. Qed.
+Print Assumptions C02_reqmod_once_before_upstream.
+
+(* resmod runs exactly once (not at all iff the request modifier hijacked),
+   after every upstream contact, on a response whose Request is that same
+   request, and sees the context and session the request modifier saw. *)
+Theorem C02_resmod_once_same_request_same_ctx : forall conns Ts n,
+  model_obs fixed conns = Some (Ts, n) ->
+  all_conns (fun k b reqs T =>
+    forall i q, nth_error reqs i = Some q ->
+      ex (b + i) T = [] \/
+      exists r c s L tl, ex (b + i) T = ReqMod r c s L :: tl /\
+        count is_resmod tl = (if is_qhijack q then 0 else 1) /\
+        (forall r' sm c' s' st w L', In (ResMod r' sm c' s' st w L') tl -> sm = true /\ c' = c /\ s' = s) /\
+        (forall pre e post e', tl = pre ++ e :: post -> is_resmod e = true -> In e' post -> is_contact e' = false))
+    0 0 conns Ts.
+Proof. exact m_resmod. Qed.
+Print Assumptions C02_resmod_once_same_request_same_ctx.
+
+(* context identifiers are pairwise distinct over all exchanges of all
+   connections (in the model's counter; real IDs are 64 random bits). *)
+Theorem C02_ctx_fresh : forall conns Ts n,
+  model_obs fixed conns = Some (Ts, n) -> NoDup (flat_map ctxs Ts).
+Proof. exact m_ctx_fresh. Qed.
+Print Assumptions C02_ctx_fresh.
+
+(* every modifier call of the k-th connection sees session k: shared by all
+   exchanges of one connection and by no other. *)
+Theorem C02_session_shared_per_connection : forall conns Ts n,
+  model_obs fixed conns = Some (Ts, n) ->
+  all_conns (fun k b reqs T =>
+    forall e, In e T ->
+      match e with
+      | ReqMod _ _ s _ => s = k
+      | ResMod _ _ _ s _ _ _ => s = k
+      | _ => True
+      end) 0 0 conns Ts.
+Proof. exact m_session. Qed.
+Print Assumptions C02_session_shared_per_connection.
+
+(* whenever a modifier runs, the only retrievable context is that of the
+   exchange it runs for; nothing is retrievable when everything has ended. *)
+Theorem C02_no_context_after_exchange : forall conns Ts n,
+  model_obs fixed conns = Some (Ts, n) ->
+  all_conns (fun k b reqs T =>
+    forall e, In e T ->
+      match e with
+      | ReqMod r _ _ L => L = [r]
+      | ResMod r _ _ _ _ _ L => L = [r]
+      | _ => True
+      end) 0 0 conns Ts
+  /\ n = 0.
+Proof. exact m_linked. Qed.
+Print Assumptions C02_no_context_after_exchange.
+
+(* a modifier error only adds a Warning: unless a modifier hijacks, the
+   exchange is answered exactly once, with the status the response modifier
+   saw and its warnings plus one iff the response modifier failed; what goes
+   upstream carries one warning iff the request modifier failed. *)
+Theorem C02_error_is_warning_and_continues : forall conns Ts n,
+  model_obs fixed conns = Some (Ts, n) ->
+  all_conns (fun k b reqs T =>
+    forall i q, nth_error reqs i = Some q ->
+      let E := ex (b + i) T in
+      E = [] \/
+      ((forall r st w cl m, In (Write r st w cl m) E ->
+          exists st' w', find_resmod E = Some (st', w') /\ st = st' /\ w = w' + b2n (is_serr q) /\ m = 1) /\
+       (forall r sm w m, In (Upstream r sm w m) E -> w = b2n (is_qerr q)) /\
+       count is_write E = (if is_qhijack q || is_shijack q then 0 else 1)))
+    0 0 conns Ts.
+Proof. exact m_error. Qed.
+Print Assumptions C02_error_is_warning_and_continues.
+
+(* skip round trip: no upstream contact and a warning-free 200 reaches the
+   response modifier (and, by the previous theorem, the client) — for plain
+   requests and MITM'd CONNECTs.  Guard: no request is a blindly tunnelled
+   CONNECT whose request modifier asked to skip. *)
+Theorem C02_skip_means_no_upstream_and_200_through_resmod_partial : forall conns Ts n,
+  model_obs fixed conns = Some (Ts, n) ->
+  forallb (forallb (fun q => negb (is_blind q && is_qskip q))) conns = true ->
+  all_conns (fun k b reqs T =>
+    forall i q, nth_error reqs i = Some q ->
+      let E := ex (b + i) T in
+      E = [] \/
+      (is_qskip q = true ->
+       (forall e, In e E -> is_contact e = false) /\ find_resmod E = Some (200, 0)))
+    0 0 conns Ts.
+Proof. exact m_skip. Qed.
+Print Assumptions C02_skip_means_no_upstream_and_200_through_resmod_partial.
+
+(* ... and it is false for exactly that case: handleConnectRequest dials the
+   target although the request modifier asked to skip (known finding C02-K1). *)
+Theorem C02_skip_means_no_upstream_and_200_through_resmod_refuted :
+  exists Ts n, model_obs fixed w_skip = Some (Ts, n) /\ c02_fail w_skip Ts n 0 = Some CSkip.
+Proof. exact fixed_skip_blind_fails. Qed.
+Print Assumptions C02_skip_means_no_upstream_and_200_through_resmod_refuted.
+
+(* once the hijacking modifier has returned nothing happens on the
+   connection but its close. *)
+Theorem C02_hijack_no_more_io_then_close : forall conns Ts n,
+  model_obs fixed conns = Some (Ts, n) ->
+  all_conns (fun k b reqs T =>
+    forall pre r post, T = pre ++ HijackRet r :: post -> post = [SockClose]) 0 0 conns Ts.
+Proof. exact m_hijack. Qed.
+Print Assumptions C02_hijack_no_more_io_then_close.
+
+(* modifiers are only ever called for requests the client sent on that
+   connection. *)
+Theorem C02_modifiers_only_for_requests_read : forall conns Ts n,
+  model_obs fixed conns = Some (Ts, n) ->
+  all_conns (fun k b reqs T =>
+    forall e r, In e T -> ev_req e = Some r -> b <= r < b + length reqs) 0 0 conns Ts.
+Proof. exact m_scope. Qed.
+Print Assumptions C02_modifiers_only_for_requests_read.
+
+(* The oracle the driver evaluates on the real proxy's observations is the
+   conjunction of the clauses above ([C02_good] unfolds to them). *)
+Theorem C02_oracle_is_the_property : forall conns Ts live ret,
+  c02_ok conns Ts live ret = true <-> C02_good conns Ts live ret.
+Proof. exact c02_ok_iff. Qed.
+Print Assumptions C02_oracle_is_the_property.
+
+Theorem C02_model_satisfies_oracle : forall conns Ts n,
+  model_obs fixed conns = Some (Ts, n) ->
+  forallb (forallb (fun q => negb (is_blind q && is_qskip q))) conns = true ->
+  C02_good conns Ts n 0.
+Proof. exact m_good. Qed.
+Print Assumptions C02_model_satisfies_oracle.
+
+(* The pinned commit, modelled by variant [asis], violates two clauses. *)
+Theorem C02_pinned_commit_hijack_refuted :
+  exists Ts n, model_obs asis w_hijack = Some (Ts, n) /\ ~ C02_good w_hijack Ts n 0.
+Proof. exact asis_hijack_refuted. Qed.
+Print Assumptions C02_pinned_commit_hijack_refuted.
+
+Theorem C02_pinned_commit_connect_context_refuted :
+  exists Ts n, model_obs asis w_connect = Some (Ts, n) /\ ~ C02_good w_connect Ts n 0.
+Proof. exact asis_connect_refuted. Qed.
+Print Assumptions C02_pinned_commit_connect_context_refuted.
+
+(* Non-vacuity: a case with an error, a skip, a failed round trip with
+   "Connection: close", a second connection with a MITM'd CONNECT, an inner
+   request and a hijack by the response modifier. *)
+Example C02_example :
+  model_obs fixed
+    [[mkReq Plain QErr RtOk SErr false; mkReq Plain QSkip RtOk SPass false;
+      mkReq Plain QPass RtFail SPass true; mkReq Plain QPass RtOk SPass false];
+     [mkReq ConnectMitm QPass RtOk SPass false; mkReq Plain QPass RtOk SPass false;
+      mkReq Plain QPass RtOk SHijack false; mkReq Plain QPass RtOk SPass false]]
+  = Some
+    ([[ReqMod 0 0 0 [0]; Upstream 0 true 1 1; ResMod 0 true 0 0 203 0 [0]; Write 0 203 1 false 1;
+       ReqMod 1 1 0 [1]; ResMod 1 true 1 0 200 0 [1]; Write 1 200 0 false 1;
+       ReqMod 2 2 0 [2]; Upstream 2 true 0 1; ResMod 2 true 2 0 502 1 [2]; Write 2 502 1 true 1;
+       SockClose];
+      [ReqMod 4 3 1 [4]; ResMod 4 true 3 1 200 0 [4]; Write 4 200 0 false 1;
+       ReqMod 5 4 1 [5]; Upstream 5 true 0 1; ResMod 5 true 4 1 203 0 [5]; Write 5 203 0 false 1;
+       ReqMod 6 5 1 [6]; Upstream 6 true 0 1; ResMod 6 true 5 1 203 0 [6]; HijackRet 6;
+       SockClose]], 0).
+Proof. vm_compute. reflexivity. Qed.
+
+Example C02_example_guard_met :
+  forallb (forallb (fun q => negb (is_blind q && is_qskip q)))
+    [[mkReq Plain QSkip RtOk SPass false]; [mkReq ConnectMitm QSkip RtOk SPass false]] = true.
+Proof. reflexivity. Qed.
